@@ -26,7 +26,7 @@ LEVEL_NOTE = ("Order is decided in the bounded, restated form 'observed slope ov
               "and end positions stay inside the clip box; the metric is the start cell's, as the implementation documents. RK2 = midpoint rule.")
 RULE = ("cases: onestep (field x scheme x metric, 200 particles, 6 steps), order (field x scheme ladder), helper (analytical.get_velocityN ladder), e2e (ROMS files, linear field, scheme, "
         "dx != dy). Non-trivial: the field has non-zero second derivatives or time dependence so that the three schemes differ; distinct by (kind, field, scheme, metric).")
-MANDATORY = ["time_step_of_odd_seconds", "e2e_reversed_time_dependent", "inactive_particles_among_the_active", "grid_corner_off_diagonal", "e2e_subgrid_off_diagonal", "onestep_EF", "onestep_RK2", "onestep_RK4", "time_dependent_field", "anisotropic_metric", "piecewise_metric", "order_EF", "order_RK2", "order_RK4",
+MANDATORY = ["helper_sample_function_returning_shared_arrays", "time_step_of_odd_seconds", "e2e_reversed_time_dependent", "inactive_particles_among_the_active", "grid_corner_off_diagonal", "e2e_subgrid_off_diagonal", "onestep_EF", "onestep_RK2", "onestep_RK4", "time_dependent_field", "anisotropic_metric", "piecewise_metric", "order_EF", "order_RK2", "order_RK4",
              "helper_order_1", "helper_order_2", "helper_order_4", "e2e_runs", "velocity_requests_checked"]
 ASSUMPTIONS = ["per-step displacement below about one cell (Courant <= 0.9)", "diffusion off"]
 TIMEOUT = {"quick": 900, "thorough": 3000}
@@ -255,6 +255,34 @@ def _helper(case, V, sit, cnt, keys):
     npart = 30
     X0 = rng.uniform(14.0, 36.0, size=npart)
     Y0 = rng.uniform(12.0, 28.0, size=npart)
+    # sample functions that hand back arrays they do not own: the positions themselves (unit coefficients) and arrays cached by the caller;
+    # the helper must neither change them nor the state, and must return the scheme's velocity
+    cacheU, cacheV = np.full(npart, 3.0e-4), np.full(npart, -2.0e-4)
+    for label, fn in (("returns its arguments", lambda x, y: (y, x)), ("returns cached arrays", lambda x, y: (cacheU, cacheV))):
+        st0 = State()
+        st0.append(X=X0, Y=Y0, Z=0.0)
+        try:
+            U_, V_ = func(st0, fn, 0.5, s=s_par) if p == 2 else func(st0, fn, 0.5)
+            U_, V_ = np.array(U_, float), np.array(V_, float)
+        except Exception as e:  # noqa: BLE001
+            V.append(C.viol(f"analytical.get_velocity{p} raised {type(e).__name__}: {e} (sample function that {label})"))
+            return
+        _bump(sit, "helper_sample_function_returning_shared_arrays")
+        if np.any(st0.X != X0) or np.any(st0.Y != Y0):
+            V.append(C.viol(f"analytical.get_velocity{p} changed the particle positions in the state (sample function that {label})"))
+            return
+        if np.any(cacheU != 3.0e-4) or np.any(cacheV != -2.0e-4):
+            V.append(C.viol(f"analytical.get_velocity{p} changed the arrays its sample function returned (sample function that {label})"))
+            return
+        if label == "returns cached arrays" and (np.max(np.abs(U_ - 3.0e-4)) > 1e-18 or np.max(np.abs(V_ + 2.0e-4)) > 1e-18):
+            V.append(C.viol(f"analytical.get_velocity{p} in a uniform field ({3.0e-4}, {-2.0e-4}) returned ({U_[0]}, {V_[0]})"))
+            return
+        if label == "returns its arguments":
+            # dx/dt = y, dy/dt = x, step 0.5: compare with the scheme evaluated on copies
+            X1r, Y1r, _st, _uv = ref.scheme_step({1: "EF", 2: "RK2", 4: "RK4"}[p], lambda x, y, t: (np.array(y), np.array(x)), X0, Y0, 0.0, 0.5, 1.0, 1.0) if (p != 2 or s_par == 0.5) else (None, None, None, None)
+            if X1r is not None and (np.max(np.abs(X0 + 0.5 * U_ - X1r)) > 1e-9 or np.max(np.abs(Y0 + 0.5 * V_ - Y1r)) > 1e-9):
+                V.append(C.viol(f"analytical.get_velocity{p} with sample(x, y) = (y, x): step differs from the scheme's by {np.max(np.abs(X0 + 0.5 * U_ - X1r)):.3g}"))
+                return
     dt0, n0 = 1200, 8
     Xr, Yr = ref.integrate("RK4", lambda x, y, t: sample(x, y), X0, Y0, 0.0, dt0 / 64.0, n0 * 64, 1.0, 1.0)
     errs = []
